@@ -1082,19 +1082,24 @@ def stage_oracle_entry(rep, rng, n, ectx):
         cases.append((gen_entry_string(rng, rep), rng.choice([0, 0, 1, 1, 2, 3, 5, 7]),
                       rng.choice([None, None, None, True, False]), rng.choice([None, None, True, False])))
 
-    def fail(law, info, detail):
+    def fail(law, info, detail, classes=()):
         nonlocal bad
         bad += 1
         stats['fail:' + law] = stats.get('fail:' + law, 0) + 1
         rep.fail('%s law broken for the string %r (%s): %s' % (law, info['s'], info.get('cls', info.get('builtin')), detail),
-                 dict(info, law=law, detail=detail), classes=())
+                 dict(info, law=law, detail=detail), classes=classes)
 
     def agree(law, info, got, gerr, want, werr):
         """both rejected, or both accepted and the same path in every observable respect"""
         if (got is None) != (want is None):
+            # the one recorded finding that reaches an entry point: a builtin that rebuilds the accepted relative path from
+            # its drive-like suffix (directory()/header_directory() -> parent/as_directory) raises the drive error
+            cl = ('relative-suffix-drive-like',) if (
+                law == 'builtin_string' and got is None and want is not None and str(gerr) == 'ValueError: ' + DRIVE_ERR and
+                'relative-suffix-drive-like' in classes_of(want)) else ()
             fail(law, info, 'the entry point %s but the constructor %s' % (
                 'raised ' + str(gerr) if got is None else 'returned %r' % (got,),
-                'raised ' + str(werr) if want is None else 'returns %r' % (want,)))
+                'raised ' + str(werr) if want is None else 'returns %r' % (want,)), cl)
             return False
         if got is None:
             return True
@@ -1110,8 +1115,11 @@ def stage_oracle_entry(rep, rng, n, ectx):
                 return False
         return True
 
+    def malformed_unc(s):       # as in stage_oracle_paths: exercised by the W-correspondence only
+        t = s.lstrip(' \t\n\r\x0b\u00a0\u2003')
+        return any(re.match(r'^[/\\]{2}', x) and not re.match(r'^[/\\]{2}(srv[/\\]share|s[/\\]h)[/\\]', x) for x in (s, t))
     for s, ri, dd, dr in cases:
-        if s.startswith('~') or bad > 200:
+        if s.startswith('~') or bad > 200 or malformed_unc(s):
             continue
         for cls in (P, W):
             info = {'kind': 'entry', 'cls': cls.__name__, 's': s, 'root': ri, 'destdir': dd, 'directory': dr}
@@ -1159,7 +1167,7 @@ def stage_oracle_entry(rep, rng, n, ectx):
     nb = 0
     bcases = [s for s in ENTRY_CORPUS] + [gen_entry_string(rng, rep) for _ in range(max(40, n // 6))]
     for s in bcases:
-        if s.startswith('~') or '\0' in s or bad > 400:
+        if s.startswith('~') or '\0' in s or bad > 400 or malformed_unc(s):
             continue
         for base in ([], ['sub'], ['sub dir', 'in ']):
             c = ectx.context(base)
@@ -1175,7 +1183,7 @@ def stage_oracle_entry(rep, rng, n, ectx):
                 table += [(nm, (lambda nm=nm: c[nm](s).path), wsrc, wsrc_e)
                           for nm in ('generic_file', 'source_file', 'header_file', 'auto_file')]
             if wsrc is not None:
-                table += [(nm, (lambda nm=nm: c[nm](s).path), wsrc.as_directory(), None)
+                table += [(nm, (lambda nm=nm: c[nm](s).path), wsrc, None)
                           for nm in ('directory', 'header_directory')]
             for nm, f, want, werr in table:
                 nb += 1
